@@ -341,7 +341,8 @@ class Schema:
                     if path_i_str not in items:
                         items[path_i_str] = {"path": path_simple_i}
                     items[path_i_str]["required"] = (
-                        key_cnd.callable.name == "required_keys"
+                        items[path_i_str].get("required", False)
+                        or key_cnd.callable.name == "required_keys"
                     )
 
             type_cnds = rule.condition.get_always_applicable_type_like_conditions()
